@@ -65,25 +65,29 @@ def run(cx):
     fb = cx.mir("common_lang_types")
     f = fb.one(r"text_with_carats::text_with_carats_and_line_count_buffer_and_line_numbers$")
     u = Units(fb, f)
-    loops = push_loops(f)
-    # the width of a piece of the caret line is either a `for _ in 0..n { push }` loop or a str::repeat(n)
-    sinks = [(rng, list(rng.ops), rng.line) for rng, push in loops]
-    for t in f.calls():
-        if term_calls(t, r"core::str::<impl str>::repeat$|alloc::str::<impl str>::repeat$|<impl str>::repeat$|iter::repeat_n$|iter::repeat_with$"):
-            sinks.append((t, [t.args[1]], t.line))
-    sinks.sort(key=lambda x: x[2])
+    # the caret line may be built in the function itself or in private helpers only it calls
+    fam = [g for g in cone_fns(fb, owner_cone(fb, [f.id], crates={"common_lang_types"})) if not g.root]
+    sinks = []
+    for g in fam:
+        ug = u if g is f else Units(fb, g)
+        for rng, push in push_loops(g):
+            sinks.append((g, ug, list(rng.ops), rng.line))
+        for t in g.calls():
+            if term_calls(t, r"core::str::<impl str>::repeat$|alloc::str::<impl str>::repeat$|<impl str>::repeat$|iter::repeat_n$|iter::repeat_with$"):
+                sinks.append((g, ug, [t.args[1]], t.line))
+    sinks.sort(key=lambda x: (x[0].id, x[3]))
     cx.floor("R31.units caret-line widths (push loops / repeat counts)", len(sinks), 3)
-    for i, (rng, cnt_ops, line) in enumerate(sinks):
+    for i, (g, ug, cnt_ops, line) in enumerate(sinks):
         units = set()
         for o in cnt_ops:
-            units |= u.op_units(o)
+            units |= ug.op_units(o)
             pl = op_place(o)
             if pl is not None:
-                units |= u._field_source(pl)
+                units |= ug._field_source(pl)
         cx.ob("R31.units", "%s|caret-loop#%d-counts-chars" % (f.id, i), bool(units) and units <= {CHAR},
               "the number of spaces/carets pushed onto the caret line is counted in %s, not characters: on a line "
               "with multi-byte characters the carets are not under the span (one caret per byte)" % (
-                  "/".join(sorted(units)) or "an unknown unit"), f.loc(line))
+                  "/".join(sorted(units)) or "an unknown unit"), g.loc(line))
     # string slices are indexed with byte offsets
     slices = [t for t in f.calls() if term_calls(t, r"core::str::traits::<impl std::ops::Index<I> for str>::index$")]
     cx.floor("R31.units slices", len(slices), 3)
